@@ -276,6 +276,21 @@ def random_spec(rng, want_cn=None, pseudogene=None, kinds=None, hostile=0.3, max
                 used.append((i, i + 1))
                 close_pair = (v, w)
 
+    # hostile: the same inserted bases a second time 18-45 bases downstream, both core variants of one allele
+    # (reads span both; the second insertion's bases equal the first's)
+    twin_pair = None
+    if rng.random() < hostile * 0.7:
+        cands = [m for m in func_pool if m[1].startswith("ins")]
+        if cands:
+            v = rng.choice(cands)
+            reg = [r for r in order if rs[r][0] <= v[0] - 1 < rs[r][1]]
+            for _ in range(20):
+                i = v[0] + rng.randint(18, 45)
+                if reg and i + 8 < rs[reg[0]][1] and free((i - 1, i + 1), 6):
+                    used.append((i - 1, i + 1))
+                    twin_pair = (v, [i, v[1], "-", "frameshift"])
+                    break
+
     alleles = {}
     alleles[f"{name}*1.001"] = {"label": f"{name}*1", "activity": "normal function", "mutations": []}
 
@@ -305,6 +320,8 @@ def random_spec(rng, want_cn=None, pseudogene=None, kinds=None, hostile=0.3, max
                 break
     if close_pair:
         majors.append((n_major + 2, [list(close_pair[0]), list(close_pair[1])]))
+    if twin_pair:
+        majors.append((n_major + 3, [list(twin_pair[0]), list(twin_pair[1])]))
     for num, core in majors:
         n_minor = rng.choice([1, 1, 2, 3])
         seen_sets = []
@@ -411,6 +428,17 @@ def random_spec(rng, want_cn=None, pseudogene=None, kinds=None, hostile=0.3, max
                 alleles[f"{name}*{next_num}.001"] = {"mutations": [[name, "deletion:" + ",".join(lost)]]}
                 fusion_alleles[str(next_num)] = ("custom", tuple(lost))
                 next_num += 1
+                if rng.random() < 0.6:
+                    # hostile: the same partial deletion declared by a second allele (same structure, same - empty -
+                    # core set; possibly a silent variant in a retained region)
+                    kept = [r for r in order if r not in lost]
+                    sil = [m for m in silent_pool if any(rs[r][0] <= m[0] - 1 < rs[r][1] for r in kept)]
+                    muts2 = [[name, "deletion:" + ",".join(lost)]]
+                    if sil and rng.random() < 0.6:
+                        muts2.append(list(rng.choice(sil)))
+                    alleles[f"{name}*{next_num}.001"] = {"mutations": muts2}
+                    fusion_alleles[str(next_num)] = ("custom", tuple(lost))
+                    next_num += 1
         if rng.random() < 0.2:
             k = rng.randint(1, n_exons - 1) if n_exons > 1 else 1
             alleles[f"{name}*{next_num}.001"] = {
